@@ -489,9 +489,14 @@ def length_mutations(seed: bytes):
                 yield "bits-unused", seed[:cp] + bytes([u]) + seed[cp + 1 :]
             for content in (b"\x00", b"\x00\x00", b"\x00\x04", b"\x00\x02", b"\x00\x06", b"\x07", b"\x00\x04\x01"):
                 yield "bits-degenerate", _resize(seed, tp, lp, ll, cp, cl, content)
+            for content in (b"\x00\x04" + b"\xff" * 4000, b"\x00\x02" + b"\x7f" * 2000, b"\x00" + b"\xff" * 1800):
+                yield "bits-huge", _resize(seed, tp, lp, ll, cp, cl, content)
         if seed[tp] == 0x04 and cl:
             for content in (b"", b"\x00", b"\x30\x00", b"\x01"):
                 yield "octets-degenerate", _resize(seed, tp, lp, ll, cp, cl, content)
+            # contents of thousands of octets (read as one integer they have more decimal digits than Python >= 3.11 prints)
+            for content in (b"\x01" + bytes(2100), b"\xff" * 1800, seed[cp:cp + cl] + b"\x00" * 4000, b"\x00" * 1799 + b"\x01"):
+                yield "octets-huge", _resize(seed, tp, lp, ll, cp, cl, content)
         if seed[tp] == 0x02 and cl:
             for content in (b"\x00", b"\x02", b"\x7f", b"\x00\x80"):
                 yield "int-small", _resize(seed, tp, lp, ll, cp, cl, content)
